@@ -172,7 +172,7 @@ class MarkerPlan(Plan):
                 "with ev/uses ghosts; definitional axioms generated from the real evaluate() bodies; z3 with deterministic instantiation; atom layer by the bounded stand-in"
     trusted_base = ["A-ENGINE", "law.C13 (== implies same meaning/class/variables) as proved by the C13 check for atoms, bounded for compounds",
                     "assumed contracts (guarded by the bounded part): the distributive branch of cnf/dnf; for version-valued atoms the bridge 'an atom holds iff its specifier view admits the environment's value' "
-                    "(C11 a); _normalize_python_version_specifier and from_specifier by their C11 contracts (proved by the C11 check)", "A-STDLIB set semantics: set(xs), issubset, intersection, difference, `in` decide membership by == with an element (hash consistent with ==: C13)",
+                    "(C11 a, proved by the C11 check relative to A-PKG-CONTAINS); _normalize_python_version_specifier and from_specifier by their C11 contracts (proved by the C11 check)", "A-STDLIB set semantics: set(xs), issubset, intersection, difference, `in` decide membership by == with an element (hash consistent with ==: C13)",
                     "A-HASHSEED", "A-TERM"]
     rtc = [("marker_algebra", None)]
 
@@ -336,13 +336,14 @@ def get_plan(pid):
                                   "bounds, every parsed ==P.* range and every parsed !=P.* / !=V union, the atom returned is None or carries an (operator, value) clause that denotes exactly the given specifier "
                                   "(zero padding keeps the version, never touches ~= or wildcard operands) and installs that very specifier; contract on _normalize_python_version_specifier over dotted "
                                   "integer texts: for every operator and every value X / X.Y / X.Y.0 the result admits exactly the full versions A.B.C whose python_version A.B satisfies the atom (PEP 440 "
-                                  "on release-only versions written out: zero padding, lexicographic order, prefix match); _get_specifier hands the atom's own clause to the parser; z3; "
-                                  "evaluation against the specifier view and the in/not in expansion as bounded part",
+                                  "on release-only versions written out: zero padding, lexicographic order, prefix match); _get_specifier hands the atom's own clause to the parser; the real _evaluate on version atoms (both operand orders, "
+                                  "values X / X.Y / X.Y.Z, environments A.B / A.B.C) returns exactly 'the environment's value lies in the specifier view'; z3; "
+                                  "the same on real objects over the interpreter grid and the in/not in expansion as bounded part",
                         trusted_base=["A-ENGINE", "A-VER", "A-PKG-PARSE (incl.: SpecifierSet(text) holds exactly the comma separated clauses of the text; appending '.0' to a release-only version text "
                                       "gives the same version with one more segment)", "C06 (rendering of a range) is re-derived inline, C04.leaf gives the meaning of the clause when it is parsed back", "A-TERM"],
                         assumptions=["bounds with pre/post/dev segments are outside the proof part (dot counting on such texts is not modelled): bounded only",
-                                     "that _evaluate on a version atom returns what packaging's Specifier(op + value).contains(environment value) returns, and that this is the clause's PEP 440 meaning "
-                                     "(A-PKG-CONTAINS), is bounded (bridge suite: view vs evaluation on the interpreter grid); the in / not in expansion of _get_specifier is bounded (finding D14)"],
+                                     "A-PKG-CONTAINS: packaging's Specifier(clause).contains(version) is the PEP 440 meaning of the clause on release-only versions as written out in contracts/pyversion.py "
+                                     "(guarded by the bridge suite on the interpreter grid); pre-release interpreter versions and the in / not in expansion of _get_specifier are bounded only (finding D14)"],
                         explanation="proof part: the specifier -> atom direction (the zero-padding logic the property names) for all versions / release lengths; bounded part: both directions on real objects "
                                     "against evaluate() over the interpreter grid")
         plan.own = lambda name: "C11." in name or "#raises." in name or "#cover" in name or "#subset" in name
